@@ -110,6 +110,32 @@ TEXT = {
    ref='DESIGN.md §6 C20'),
 }
 
+
+# what the adversarial (fifth) wave of seeded changes added, per property (DESIGN.md §11.4)
+EXTRA = {
+ 'C01': 'Two wide containers per program cross 64 and 128/256 unfolded entries inside a value-embedded and a pointer-embedded struct (lenses and reflectors by name and by entry around the threshold); foci of 320-1100 bytes; pointer-holding values are handed from container to container through the optic only while the collector runs back to back, with GODEBUG=gccheckmark=1,clobberfree=1 in the children (a store without write barrier is the runtime\'s fatal checkmark report).',
+ 'C02': 'Entries behind the embedded pointer of the wide containers (unfolding positions past 64 / 128 / 256) must be refused by name and by entry.',
+ 'C03': 'Every root shape is also unfolded as a function-local type of the same printed name with another layout, right after the package-level one in the same process (anything remembered per type name shows).',
+ 'C04': 'Join also goes through struct-typed fields promoted from value-embedded structs (outer lens with a root offset) and through intermediates of 320-1100 bytes.',
+ 'C05': 'Programs at scale: Partition halves collected one after the other in both orders, a five-stage chain with error channels read to their end first, long Fold, and Seq followed by the caller refilling its slice, for lengths/capacities over 2^k-1, 2^k, 2^k+1 and round numbers up to 4097 (65537 thorough); a library goroutine racing with the caller\'s write to its own slice is reported as race/retained-argument.',
+ 'C06': 'One failure value in four has an Error method that panics, and typed-nil *T failures go through Map, Map+StdErr and fork.Map+StdErr: no stage may ask a failure for its text.',
+ 'C07': 'Morphism values (Lift/Try/LiftF/TryF results) are long-lived: two cases in three take theirs from a process-wide registry shared by all cases of the child process, so state kept inside a reused value shows in a later case.',
+ 'C08': 'Busy periods of exactly N queued values, N over 2^k-1, 2^k, 2^k+1 up to 4097 (65537), each followed by further sends, drained at once or in two steps, ended by close or cancel, at capacities over the same thresholds.',
+ 'C09': 'Programs at scale with 1-129 (1025 thorough) workers: an outage under Lift (every element of the second half fails; values read to their end, then errors; or nobody receives and cancel must release every goroutine) and Try-mode multiset equality.',
+ 'C10': 'The same worker counts x monoids with non-zero identities x lengths around the worker count and long enough for one worker to fold more than 1024 / 4096 elements.',
+ 'C11': 'Long runs (255-1025 ticks, 8193 thorough) with a consumer that falls behind once or a slow function; a source that fails on every index from N on, errors read, then cancel (gone within 2*cap+200 ticks).',
+ 'C12': 'Join with up to 257 (2049) inputs: one producer feeding unbuffered inputs round-robin, many quiet feeds with one element on the last, and the caller reusing its slice of inputs right after Join returned.',
+ 'C13': 'Rates over 2^k-1, 2^k, 2^k+1 up to 4097 (65537) and 1500, 2500, 7500, 12345 with ops*1.5 elements; contexts carrying a far deadline, a value, or a deadline at every half interval (bound checked up to the deadline).',
+ 'C14': 'Scale families: left- and right-nested Plus chains of 1-257 (4097) operands, towers of one combinator up to 129 (1025) high, leaves up to 4097 (65537) elements, and sequences of 3 (20) million elements through every combinator under a 64 MB goroutine stack limit.',
+ 'C15': 'The same scale families over pair.Seq (chains of pair.Plus, towers, FromSeq over long leaves, multi-million element sequences under the 64 MB stack limit).',
+ 'C18': 'Large lists: size oscillation around e^7..e^10 and 2^10..2^14 keys and sliding windows whose every new key is the list minimum / maximum, 0.4-0.7 million operations each (4-6 million thorough), Get right after every Put, dump audit at the turning points.',
+}
+for _pid, _t in EXTRA.items():
+    TEXT[_pid]['text'] += ' ' + _t
+TEXT['C09']['note'] = 'Fail-fast (Lift) mode is exercised at scale only for closure, no-leak and "errors only for failing elements" (which workers fail first is not determined); the multiset verdict is for Pure and Try modes. Distinct output orders are counted per child process.'
+TEXT['C15']['note'] += ' The stack limit of the long-sequence family extrapolates linearly: stack proportional to the skipped elements overflows the default 1 GB limit at a few 10^7 elements.'
+TEXT['C14']['note'] += ' The stack limit of the long-sequence family extrapolates linearly (see C15).'
+
 def main():
     checks, na = [], []
     props = [json.loads(l) for l in open(os.path.join(ROOT, 'properties.jsonl'))]
